@@ -1,7 +1,7 @@
 SPECIFICATION GSpec
 CONSTANTS
   Bounds <- GenSimQ
-  SampleAcl = 4
+  SampleAcl = 8
   SampleBytes = 29
   FIX_AddKeepsHistory = TRUE
   Dev_NoVerifyOnRebuild = FALSE
